@@ -408,6 +408,199 @@ def _(torch, x):
 
 
 # ------------------------------------------------------------------------------------------
+# sparse COO / CSR (torch/_sparse.py): the API subset of emu_sv/sparse_operator.py.  Sparse results are compared
+# by their stored layout: index order, duplicates, is_coalesced flag, crow/col pointers, values.
+# ------------------------------------------------------------------------------------------
+def _sp_add(torch, a, b):
+    """emu_sv.sparse_operator.sparse_add, literally"""
+    return torch.sparse_coo_tensor(
+        torch.cat((a.indices(), b.indices()), dim=1),
+        torch.cat((a.values(), b.values())),
+        size=a.shape,
+    ).coalesce()
+
+
+def _sp_kron(torch, a, b):
+    """emu_sv.sparse_operator.sparse_kron, literally"""
+    a, b = a.coalesce(), b.coalesce()
+    sa, sb = a.shape, b.shape
+    shape = (sa[0] * sb[0], sa[1] * sb[1])
+    i = (
+        torch.tensor(sb).reshape(2, 1, 1) * a.indices().reshape(2, -1, 1)
+        + b.indices().reshape(2, 1, -1)
+    ).reshape(2, -1)
+    v = torch.outer(a.values(), b.values()).flatten()
+    return torch.sparse_coo_tensor(i, v, shape, is_coalesced=True)
+
+
+@case("sparse: dense.to_sparse_coo() of constants (zeros, eye, units): indices, values, _nnz, flag, layout names",
+      {}, symbolic=False)
+def _(torch):
+    c = torch.complex128
+    ts = [torch.tensor([[1.0, 0.0], [0.0, 0.0]], dtype=c), torch.tensor([[0.0, 0.0], [1.0, 0.0]], dtype=c),
+          torch.tensor([[0.0, 1.5], [-2.0, 0.0]], dtype=c), torch.zeros((2, 2), dtype=c), torch.eye(2, dtype=c),
+          torch.tensor([[0.0, 1.0, 2.0], [3.0, 0.0, 4.0]], dtype=torch.float64)]
+    sp = [t.to_sparse_coo() for t in ts]
+    return (sp, [s._nnz() for s in sp], [s.indices() for s in sp], [s.values() for s in sp], [s.to_dense() for s in sp],
+            [str(s.layout) for s in sp], str(ts[0].layout), [s.is_sparse for s in sp], ts[0].is_sparse,
+            [tuple(s.shape) for s in sp], sp[2].to_sparse_coo() is sp[2], sp[2].coalesce() is sp[2], ts[5].to_sparse(),
+            ts[5].to_sparse_csr(), sp[2].ndim, sp[2].size(0), sp[2].numel(), ts[0].to_dense() is ts[0])
+
+
+@case("sparse: sparse_coo_tensor flag rules (nnz < 2, explicit flag), int32 indices, empty accumulator idiom",
+      {"v": ((3,), C)})
+def _(torch, v):
+    c = torch.complex128
+    e = torch.sparse_coo_tensor(torch.zeros(2, 0, dtype=torch.int32), torch.zeros(0, dtype=c), (4, 4))
+    one = torch.sparse_coo_tensor(torch.tensor([[1], [0]]), v[:1], (2, 2))
+    onef = torch.sparse_coo_tensor(torch.tensor([[1], [0]]), v[:1], (2, 2), is_coalesced=False)
+    u = torch.sparse_coo_tensor(torch.tensor([[1, 0, 1], [0, 1, 0]], dtype=torch.int32), v, (2, 2))
+    f = torch.sparse_coo_tensor(torch.tensor([[1, 0, 1], [0, 1, 0]]), v, (2, 2), is_coalesced=True)
+    inferred = torch.sparse_coo_tensor(torch.tensor([[1, 0], [0, 3]]), v[:2])
+    cast = torch.sparse_coo_tensor(torch.tensor([[1, 0], [0, 3]]), torch.tensor([1.0, 2.0]), (4, 4), dtype=c)
+    return (e, e._nnz(), e.indices(), e.values(), e.to_dense(), one, onef, u, f, f.coalesce() is f, f.indices(), f.values(),
+            f.to_dense(), u.to_dense(), inferred, cast, e.to_sparse_csr())
+
+
+@case("sparse: coalesce sorts lexicographically and sums duplicates; indices()/values() refuse an unflagged tensor",
+      {"v": ((7,), C)})
+def _(torch, v):
+    i = torch.tensor([[2, 0, 2, 1, 0, 2, 0], [1, 3, 1, 0, 3, 0, 0]])
+    u = torch.sparse_coo_tensor(i, v, (3, 4))
+    out = []
+    for name in ("indices", "values"):
+        try:
+            getattr(u, name)()
+            out.append("no error")
+        except RuntimeError:
+            out.append("RuntimeError")
+    k = u.coalesce()
+    return out, u, k, k.indices(), k.values(), k._nnz(), u._nnz(), k.coalesce() is k, u.to_dense(), k.to_dense(), u.is_coalesced()
+
+
+@case("sparse: scalar * s, s * scalar, s / 2, -s, s * 0-d tensor keep indices, order and flag (flagged and unflagged)",
+      {"v": ((3,), C), "z": ((2,), C), "x": ((1,), F)})
+def _(torch, v, z, x):
+    u = torch.sparse_coo_tensor(torch.tensor([[1, 0, 1], [0, 1, 0]]), v, (2, 2))
+    s = torch.sparse_coo_tensor(torch.tensor([[0, 1, 1], [1, 0, 1]]), v, (2, 2), is_coalesced=True)
+    a, b = z[0].item(), x[0].item()
+    return (a * u, u * a, a * s, s * a, b * s, 2 * s, s * 2.5, s / 2, -s, s * z[1], (1 + 2j) * s, (a * s).to_dense(),
+            torch.tensor([[0.0, 1.0], [2.0, 0.0]], dtype=torch.float64).to_sparse_coo() * (1 + 1j), (a * s).to_sparse_csr(),
+            a * s.to_sparse_csr(), s.to_sparse_csr() * 2.0)
+
+
+@case("sparse: `result += tensor * coeff` (build_torch_operator_from_string idiom): sorted union, explicit zeros kept",
+      {"z": ((4,), C)})
+def _(torch, z):
+    c = torch.complex128
+    units = [torch.tensor(m, dtype=c).to_sparse_coo() for m in ([[1.0, 0.0], [0.0, 0.0]], [[0.0, 0.0], [1.0, 0.0]],
+                                                               [[0.0, 1.0], [0.0, 0.0]], [[0.0, 0.0], [0.0, 1.0]])]
+    result = torch.zeros((2, 2), dtype=c).to_sparse_coo()
+    r0 = result
+    snaps = []
+    for k in (3, 0, 2):
+        result += units[k] * z[k].item()
+        snaps.append(result.clone())
+    result += units[0] * (-z[0].item())                # cancels: the explicit zero stays
+    both = units[1] + units[2]
+    return (snaps, result, result is r0, result.to_dense(), both, units[1] - units[1], both + both * 2.0, units[0],
+            (result + both).indices(), (result + both).is_coalesced())
+
+
+@case("sparse: sparse_add / sparse_kron of emu_sv/sparse_operator.py, literally (kron result is FLAGGED coalesced)",
+      {"p": ((3,), C), "q": ((2,), C), "w": ((2,), C)})
+def _(torch, p, q, w):
+    from functools import reduce
+    c = torch.complex128
+    a = torch.sparse_coo_tensor(torch.tensor([[0, 0, 1], [0, 1, 1]]), p, (2, 2)).coalesce()      # two entries in row 0
+    b = torch.sparse_coo_tensor(torch.tensor([[0, 1], [1, 0]]), q, (2, 2)).coalesce()
+    ident = torch.eye(2, dtype=c).to_sparse_coo()
+    k1 = _sp_kron(torch, a, ident)                       # rows unsorted, flagged coalesced
+    k2 = reduce(lambda x, y: _sp_kron(torch, x, y), [ident, a, b])
+    k3 = _sp_kron(torch, b, a)
+    acc = torch.sparse_coo_tensor(torch.zeros(2, 0, dtype=torch.int32), torch.zeros(0, dtype=c), (4, 4))
+    acc1 = _sp_add(torch, acc, w[0].item() * k1)
+    acc2 = _sp_add(torch, acc1, w[1].item() * k3)
+    dk = torch.kron(a.to_dense(), ident.to_dense())
+    return (k1, k1.indices(), k1.to_dense(), dk, k2, k2.to_dense(), k3, acc1, acc2, acc2.to_dense(), acc2.to_sparse_csr(),
+            acc1.to_sparse_csr(), acc2.to_sparse_csr().to_dense())
+
+
+@case("sparse: to_sparse_csr of unflagged (coalesces first) and truly coalesced COO; csr @ vector / matrix, to_dense, "
+      "to_sparse_coo, scalar * csr, clone, to(dtype=, device=)", {"v": ((6,), C), "x": ((4,), C), "m": ((4, 2), C), "z": ((1,), C)})
+def _(torch, v, x, m, z):
+    i = torch.tensor([[2, 0, 2, 1, 0, 2], [1, 3, 1, 0, 3, 0]])
+    u = torch.sparse_coo_tensor(i, v, (3, 4))
+    ku = u.to_sparse_csr()
+    kc = u.coalesce().to_sparse_csr()
+    a = z[0].item()
+    sc = a * kc
+    cl = torch.clone(kc)
+    same = kc.to(dtype=torch.complex128, device="cpu")
+    return (ku, kc, ku.crow_indices(), ku.col_indices(), ku.values(), kc @ x, kc @ m, u @ x, u.coalesce() @ m, kc.to_dense(),
+            kc.to_sparse_coo(), sc, sc @ x, cl, same is kc, kc.to_sparse_csr() is kc, kc._nnz(), str(kc.layout), kc.is_sparse,
+            kc.is_sparse_csr, u.is_sparse_csr, tuple(kc.shape), torch.vdot(x[:3], kc @ x), kc.to(torch.complex64).values().dtype,
+            u.to(torch.complex64), u.to(dtype=torch.complex128, device="cpu") is u, kc.is_cuda)
+
+
+@case("sparse: to_sparse_csr of a COO tensor FLAGGED coalesced whose rows are unsorted / duplicated: torch trusts the flag "
+      "(sequential row-compression kernel); the wrong CSR matrix is reproduced exactly",
+      {"r": ((9,), I64), "c": ((9,), I64), "v": ((9,), C), "x": ((4,), C)})
+def _(torch, r, c, v, x):
+    out = []
+    pats = [torch.stack([r % 4, c % 4]), torch.stack([(r + c) % 3, c % 4]), torch.stack([3 - (r % 4), r % 4]),
+            torch.tensor([[0, 1, 0, 1, 2, 3, 2, 3, 0], [0, 1, 2, 3, 0, 1, 2, 3, 3]]),
+            torch.tensor([[3, 2, 1, 0, 0, 1, 2, 3, 1], [0, 1, 2, 3, 0, 1, 2, 3, 1]])]
+    for i in pats:
+        f = torch.sparse_coo_tensor(i, v, (4, 4), is_coalesced=True)
+        k = f.to_sparse_csr()
+        out.append((f, k, k.to_dense(), f.to_dense(), k @ x, f @ x, k.to_sparse_coo(), f.coalesce() is f))
+    # the seeded situation: kron([[a, b], [0, 0]], I) reaches to_sparse_csr() without a real coalesce
+    a = torch.sparse_coo_tensor(torch.tensor([[0, 0], [0, 1]]), v[:2], (2, 2), is_coalesced=True)
+    kk = _sp_kron(torch, a, torch.eye(2, dtype=torch.complex128).to_sparse_coo())
+    return out, kk, kk.to_sparse_csr(), kk.to_sparse_csr().to_dense(), kk.to_dense(), kk.to_sparse_csr() @ x
+
+
+@case("sparse errors: nnz mismatch", {"v": ((1,), C)}, symbolic=False)
+def _(torch, v):
+    return torch.sparse_coo_tensor(torch.tensor([[1, 0], [0, 3]]), v, (4, 4))
+
+
+@case("sparse errors: csr @ vector of another dtype", {"v": ((2,), C), "x": ((2,), F)}, symbolic=False)
+def _(torch, v, x):
+    return torch.sparse_coo_tensor(torch.tensor([[1, 0], [0, 1]]), v, (2, 2)).to_sparse_csr() @ x
+
+
+@case("sparse errors: csr @ vector of the wrong length", {"v": ((2,), C), "x": ((3,), C)}, symbolic=False)
+def _(torch, v, x):
+    return torch.sparse_coo_tensor(torch.tensor([[1, 0], [0, 1]]), v, (2, 2)).to_sparse_csr() @ x
+
+
+@case("sparse errors: sparse + dense", {"v": ((2,), C), "x": ((2, 2), C)}, symbolic=False)
+def _(torch, v, x):
+    return torch.sparse_coo_tensor(torch.tensor([[1, 0], [0, 1]]), v, (2, 2)).coalesce() + x
+
+
+@case("sparse errors: indices() of a CSR tensor", {"v": ((2,), C)}, symbolic=False)
+def _(torch, v):
+    return torch.sparse_coo_tensor(torch.tensor([[1, 0], [0, 1]]), v, (2, 2)).to_sparse_csr().indices()
+
+
+@case("sparse: deepcopy of COO copies, deepcopy of CSR raises NotImplementedError (why SparseOperator defines __deepcopy__)",
+      {"v": ((2,), C)})
+def _(torch, v):
+    import copy
+    s = torch.sparse_coo_tensor(torch.tensor([[1, 0], [0, 1]]), v, (2, 2))
+    d = copy.deepcopy(s)
+    try:
+        copy.deepcopy(s.to_sparse_csr())
+        r = "no error"
+    except NotImplementedError:
+        r = "NotImplementedError"
+    return d, d is s, r
+
+
+# ------------------------------------------------------------------------------------------
 # input generation and result normalisation
 # ------------------------------------------------------------------------------------------
 def gen_inputs(c, seed):
@@ -445,6 +638,13 @@ def build_tensor(torch, spec, leaf):
 
 
 def normalise(torch, x, val):
+    if isinstance(x, torch.Tensor) and str(x.layout) != "torch.strided":
+        # sparse tensors are compared by their stored LAYOUT (index order, duplicates, flag), not by to_dense()
+        if str(x.layout) == "torch.sparse_coo":
+            parts = ["sparse_coo", list(x.shape), bool(x.is_coalesced()), x._nnz(), x._indices(), x._values()]
+        else:
+            parts = [str(x.layout), list(x.shape), x._nnz(), x.crow_indices(), x.col_indices(), x.values()]
+        return normalise(torch, parts + [str(x.dtype)], val)
     if isinstance(x, torch.Tensor):
         if hasattr(x, "_a"):
             flat = [val(e) for e in x._a.reshape(-1).tolist()] if x._a.size else []
@@ -674,7 +874,8 @@ def main():
         try:
             p = subprocess.run(["/venv/bin/python", os.path.abspath(__file__), "--native", path],
                                capture_output=True, text=True, timeout=600,
-                               env={k: v for k, v in os.environ.items() if k != "PYTHONPATH"})
+                               env={**{k: v for k, v in os.environ.items() if k != "PYTHONPATH"},
+                                    "OMP_NUM_THREADS": "1", "MKL_NUM_THREADS": "1"})
         finally:
             os.remove(path)
         try:
